@@ -23,7 +23,11 @@ RULE = ('cases = whole connections through the real HttpProtocolHandler+HttpProx
         'then later requests, upstream chunks, raw client data, ended by client EOF/reset, upstream EOF/reset or executor shutdown, each with the '
         'client socket\'s shutdown(SHUT_WR) succeeding / raising ENOTCONN (after a peer reset) / raising a scripted OSError (endings grid: ending x '
         'shutdown outcome x fate of the first request); plugin class names drawn from a pool sorting before/after/around "AuthPlugin"; '
-        'a connection whose first request never completes; load-order cases with duplicate classes and equal names. '
+        'a connection whose first request never completes; load-order cases with duplicate classes and equal names; '
+        'failing-hook grid (every run): handle_client_request (first / later / same-segment request), handle_client_data and '
+        'before_upstream_connection each raising ConnectionResetError / BrokenPipeError / TimeoutError / OSError (reads_teared), rejecting '
+        '(must_flush) or raising ValueError (escapes), with a response chunk pending (unflushed / partly flushed) and upstream data, client '
+        'data and flushes arriving afterwards. '
         'A case is non-trivial when at least two plugins were invoked or a plugin dropped/rejected; distinct = distinct inputs')
 TRUSTED = ['hooks are modelled as functions of (everything logged on the connection so far, argument); plugins that write to the client/'
            'upstream sockets themselves or share state across connections are outside the model',
@@ -310,7 +314,7 @@ def gen_order(rng, quick):
 
 def generate(rng, tier):
     quick = tier != 'thorough'
-    return gen_runs(rng, quick) + gen_endings(rng, quick) + gen_reject_headers(rng, quick) + gen_threaded(rng, quick) + gen_same_segment(rng, quick) + gen_permutations(rng, quick) + gen_exhaustive(rng, quick) + gen_nofirst(rng, quick) + gen_order(rng, quick)
+    return gen_runs(rng, quick) + gen_endings(rng, quick) + gen_reject_headers(rng, quick) + gen_threaded(rng, quick) + P.gen_oserror_drain(rng, quick) + gen_same_segment(rng, quick) + gen_permutations(rng, quick) + gen_exhaustive(rng, quick) + gen_nofirst(rng, quick) + gen_order(rng, quick)
 
 
 # ------------------------------------------------------------------ implementation
